@@ -113,3 +113,15 @@ func init() {
 	propSpecs["C09"] = &PropSpec{ID: "C09", Roots: roots,
 		Note: "wire level: a two/four byte integer, a string or binary (prefix or body), a string pair and a variable byte integer that does not fit in the bytes given is refused; a variable byte integer continuing past four bytes is refused; a boolean byte other than 0/1 is refused. Framing level: in every property loop an identifier that is neither in that call site's table nor User Property / Subscription Identifier records an error (checked at every back edge against the evaluated table); a ghost counter of recorded errors proves for all 16 UnmarshalBinary methods that once any field decoder refused or an unknown identifier was seen the call returns a non-nil error, and ReadRemaining/ReadPacket then return (nil, err). NOT proved: that for a cut inside a field of an otherwise valid frame the decoder's cursor is at that field (this needs the reference reader; see DESIGN 9a)"}
 }
+
+func init() {
+	var ctors []string
+	for _, t := range packetTypes {
+		ctors = append(ctors, "New"+t)
+	}
+	roots := append(ctors, methodsOf(packetTypes, "fill")...)
+	roots = append(roots, "(vbint).fill", "(bits).fill", "(wuint16).fill", "(wuint32).fill", "(bindata).fill", "(rawdata).fill", "(wbool).fill", "(Ident).fill",
+		"(bits).fillProp", "(wbool).fillProp", "(wuint16).fillProp", "(wuint32).fillProp", "(vbint).fillProp", "(bindata).fillProp", "(UserProp).fillProp", "(UserProp).fill", "(TopicFilter).fill", "lemmaVbRoundTrip")
+	propSpecs["C02"] = &PropSpec{ID: "C02", Roots: roots, InvariantMethods: true, Extra: scanPropertyTables,
+		Note: "structural validity, PARTIAL: (1) type and reserved flag bits - the first byte is a type invariant established by each constructor and preserved by every exported method (PUBLISH: type nibble; DUP/QoS/RETAIN free), and fill writes it at offset 0; (2) the remaining-length field is the minimal variable byte integer of the closed-form size of everything that follows (MQTT field tables; for PUBACK/PUBREC/PUBREL/PUBCOMP the reason code is present whenever properties follow); (3) property table conformance scan over the SSA of all encoders and property maps against MQTT v5.0 Table 2-4: identifier numbers by name, identifiers allowed for the packet, specified wire type, at most once; (4) byte-level contracts of every wire-type encoder (two/four byte big endian, length-prefixed strings, variable byte integers, identifier byte before each property value). NOT proved: the order of fields inside variable header and payload and that a specification-level reader reads back exactly the values set (needs the reference reader R, DESIGN 9a)"}
+}
